@@ -204,6 +204,48 @@ def _eq(a, b):
     return bool(r1)
 
 
+def _exercise(a, typ) -> str:
+    """Read-only queries of a value (never an exception to the caller: a query that does not apply is skipped)."""
+    done = []
+
+    def q(name, fn):
+        try:
+            fn()
+            done.append(name)
+        except Exception:  # noqa: BLE001 - not every query applies to every value (rotated boxes have no coordinates)
+            pass
+
+    if typ == "gridspec":
+        q("[0,0]", lambda: a[0, 0])
+        q("tile_geobox", lambda: a.tile_geobox((1, -1)))
+        q("tiles", lambda: list(a.tiles(a.tile_geobox((0, 0)).boundingbox)))
+        q("pt2idx", lambda: a.pt2idx(1.0, 1.0))
+    elif typ in ("geobox", "gcp"):
+        for nm in ("extent", "boundingbox", "resolution", "coordinates", "geographic_extent", "center_pixel"):
+            q(nm, lambda nm=nm: getattr(a, nm))
+        q("pix2wld", lambda: a.pix2wld(0.5, 0.5))
+        q("crop", lambda: a[0:1, 0:1])
+    elif typ == "gbtiles":
+        q("[0,0]", lambda: a[0, 0])
+        q("chunks", lambda: a.chunks)
+        q("tiles", lambda: list(a.tiles(a[0, 0].extent)))
+    elif typ in ("tiles", "vtiles"):
+        q("[0,0]", lambda: a[0, 0])
+        q("chunks", lambda: a.chunks)
+        q("locate", lambda: a.locate((0, 0)))
+    elif typ == "geom":
+        for nm in ("boundingbox", "wkt", "area", "is_valid", "centroid"):
+            q(nm, lambda nm=nm: getattr(a, nm))
+    elif typ == "bbox":
+        q("polygon", lambda: a.polygon)
+        q("bbox", lambda: a.bbox)
+    elif typ in ("crs", "crs_like"):
+        for nm in ("epsg", "units", "geographic", "valid_region", "proj"):
+            q(nm, lambda nm=nm: getattr(a, nm))
+        q("str", lambda: str(a))
+    return ",".join(done)
+
+
 def check_single(spec, T):
     a = build_obj(spec)
     if spec["type"] in ("crs", "crs_like"):
@@ -220,6 +262,15 @@ def check_single(spec, T):
     ha = try_hash(a)
     if ha is not None:
         require(try_hash(b) == ha, "same specification, different hash: %r", _short(spec))
+    # read-only use fills lazily cached state (extents, tile geoboxes, fitted polynomials, EPSG look-ups): a value is
+    # still the same value afterwards - equal to a fresh construction, same token, same hash, and so are its clones
+    used = _exercise(a, spec["type"])
+    if used:
+        require(_eq(a, b) and _eq(b, a), "%s no longer equals a fresh construction after read-only use (%s)", spec["type"], used)
+        require(tok(a) == ta, "token of %s changed after read-only use (%s)", spec["type"], used)
+        if ha is not None:
+            require(try_hash(a) == ha, "hash of %s changed after read-only use (%s)", spec["type"], used)
+        T.cls("read_only_use:" + spec["type"])
     for name, c in (("pickle", pickle.loads(pickle.dumps(a))), ("copy", copy.copy(a)), ("deepcopy", copy.deepcopy(a))):
         require(_eq(c, a) and _eq(a, c), "%s of %s is not equal to the original (%r)", name, spec["type"], _short(spec))
         require(tok(c) == ta, "%s of %s has a different token", name, spec["type"])
